@@ -58,6 +58,10 @@ def static_event(pp, tid, A, rnd):
     both("comp", "str", lambda t: json.dumps(comp8(pp.comp(t, ion_type=ion, charge=z, estimate_delta=True)), sort_keys=True))
     both("fragment_masses", "fixbag",
          lambda t: [fix(x) for x in sorted(pp.fragment(t, ["b", "y"] if ion == "p" else [ion], [1, 2], monoisotopic=mono, return_type="mass"))])
+    both("fragmenter_masses", "fixbag",
+         lambda t: [fix(x) for x in sorted(pp.Fragmenter(t, monoisotopic=mono).fragment(
+             ["b", "y"] if ion == "p" else [ion], [1, 2], return_type="mass"))])
+    both("mz", "fix", lambda t: fix(pp.mz(t, charge=z or 1, ion_type=ion, monoisotopic=mono)))
     both("count_residues", "str", lambda t: json.dumps(sorted(pp.count_residues(t).items())))
     return ev
 
